@@ -74,6 +74,7 @@ type cSlot struct {
 }
 
 type cHarness struct {
+	failedCtors                  int64
 	c                            *cache.Cache
 	slots                        sync.Map // [2]uint64 -> *cSlot
 	all                          []*cVal
@@ -122,6 +123,11 @@ func (h *cHarness) get(ns, key uint64, size int) *heldHandle {
 		getter = func(f func() (int, cache.Value)) *cache.Handle { return g.Get(key, f) }
 	}
 	hd := getter(func() (int, cache.Value) {
+		if (key^uint64(size))%11 == 7 {
+			// a constructor that fails: no value, no handle
+			atomic.AddInt64(&h.failedCtors, 1)
+			return 0, nil
+		}
 		v := &cVal{ns: ns, key: key, id: atomic.AddInt64(&h.nextID, 1), size: size, h: h}
 		sl.mu.Lock()
 		if p := sl.cur; p != nil && atomic.LoadInt32(&p.finalized) == 0 && atomic.LoadInt32(&p.out) > 0 {
